@@ -11,6 +11,8 @@ CONSTANTS
   MaxAt = 2
   ExpmDopModes <- Pinned
   Solve2Modes <- Solve2OK
+  Progbars <- PbOff
+  Progbar0Modes <- PbOK
   PrintCases = TRUE
 INVARIANT CaseOut
 CHECK_DEADLOCK FALSE
